@@ -10,7 +10,7 @@ use std::collections::{BTreeMap, BTreeSet};
 const STRUCT_OPS: &[&str] = &[
     "nested_missing", "out_is_file", "parent_is_file", "long_name", "readonly_dir",
 ];
-const PER_FILE_OPS: &[&str] = &["stale_longer", "stale_dir", "dev_full", "dangling_link", "link_loop"];
+const PER_FILE_OPS: &[&str] = &["stale_longer", "stale_same_len", "stale_dir", "dev_full", "dangling_link", "link_loop"];
 
 fn n_outputs(p: &Project) -> usize {
     p.locale_files.len()
